@@ -403,10 +403,12 @@ pub fn make_case(prop: &str, seed: u64, run: u64, stats: &mut Stats) -> Option<C
         "C17" => {
             let stepping = *pick_weighted(
                 &mut r,
-                &[(40, Stepping::Interpreted), (20, Stepping::Int3), (15, Stepping::Mixed), (25, Stepping::None)],
+                &[(35, Stepping::Interpreted), (15, Stepping::Int3), (15, Stepping::Mixed), (15, Stepping::Tf), (20, Stepping::None)],
             );
             let mut feat = Feat::swarm(&mut r, 45);
             feat.prints = true;
+            // no reference variant is compared here: the flag image may show TF
+            feat.flags_under_tf = true;
             feat.edges = r.chance(70);
             feat.memops |= r.chance(50);
             feat.data |= r.chance(50);
